@@ -53,6 +53,7 @@ struct Ctx {
 impl Ctx {
     /// The call must have produced exactly one method frame on our channel equal to `want`.
     fn expect_one(&mut self, op: &str, args: Value, want: AMQPClass) {
+        progress(op);
         self.part.evaluations += 1;
         self.part.distinct_nontrivial += 1;
         self.part.outcome(op);
@@ -522,7 +523,62 @@ fn run_table(cx: &mut Ctx, ch: &Channel) {
     let _ = cx.probe.tap();
 }
 
+static PROGRESS: std::sync::atomic::AtomicU64 = std::sync::atomic::AtomicU64::new(0);
+static LAST_OP: std::sync::Mutex<String> = std::sync::Mutex::new(String::new());
+
+fn progress(op: &str) {
+    PROGRESS.fetch_add(1, std::sync::atomic::Ordering::SeqCst);
+    if let Ok(mut l) = LAST_OP.lock() {
+        l.clear();
+        l.push_str(op);
+    }
+}
+
+/// The table runs on its own thread: an operation that waits for a reply its documented wire
+/// behaviour does not produce (a second Basic.Cancel, a sync call where nowait was asked for)
+/// would otherwise block this check for ever. No progress for `STALL_SECS` is a verdict.
 pub fn run(args: &Args) {
+    const STALL_SECS: u64 = 20;
+    let (tx, rx) = std::sync::mpsc::channel::<()>();
+    let a2 = Args { tier: args.tier.clone(), out: args.out.clone(), rest: args.rest.clone() };
+    std::thread::spawn(move || {
+        run_inner(&a2);
+        let _ = tx.send(());
+    });
+    let mut seen = 0u64;
+    let mut idle = 0u64;
+    loop {
+        match rx.recv_timeout(std::time::Duration::from_secs(1)) {
+            Ok(()) => return,
+            Err(std::sync::mpsc::RecvTimeoutError::Disconnected) => {
+                eprintln!("MACHINERY: api table thread ended without a result");
+                std::process::exit(2);
+            }
+            Err(std::sync::mpsc::RecvTimeoutError::Timeout) => {
+                let now = PROGRESS.load(std::sync::atomic::Ordering::SeqCst);
+                if now != seen {
+                    seen = now;
+                    idle = 0;
+                } else {
+                    idle += 1;
+                }
+                if idle >= STALL_SECS {
+                    let last = LAST_OP.lock().map(|l| l.clone()).unwrap_or_default();
+                    let mut part = Part::new("C12", "api", "seqx", "exploration", &args.tier);
+                    part.rule = "operation table (see the passing run); this run ended at an operation that never returned".into();
+                    part.evaluations = now;
+                    part.distinct_nontrivial = now;
+                    part.exhaustive = false;
+                    part.violation("api:operation-hangs", format!("the operation following `{}` in the table did not return within {} s although the reply to the one method it should send was preloaded: it waits for a reply to something else it sent, or sent nothing", last, STALL_SECS), json!({"engine":"seqx","check":"api","op":last,"args":{}}));
+                    part.finish(args.out.as_deref());
+                    std::process::exit(0);
+                }
+            }
+        }
+    }
+}
+
+fn run_inner(args: &Args) {
     std::panic::set_hook(Box::new(|_| {}));
     let chan = 5u16;
     let (probe, ch) = ChannelProbe::open(131072, chan, 64);
